@@ -3,9 +3,10 @@
 
   * `methodView`: what a listener registered first on the application's manager (plus an observer
     inside the user function) sees of a run;
-  * `Q`, `accepts`: the property's automaton;
-  * `truth`: what really happened in the call (did the user function run, did it return normally,
-    did the call end in a fault), defined from the injected failure alone.
+  * `Q`, `final`, `accepts`: the property's automaton; its accepting states record what the trace
+    claims happened (user function ran / returned normally / the call ended in a fault);
+  * `clauses`: the property's sentences, one conjunct each, as a decidable predicate on a trace;
+  * `truth`: what really happened in the call, defined from the injected failure alone.
 -/
 import SpyneModel.EventsPipeline
 namespace SpyneModel.Events
@@ -29,31 +30,94 @@ def ctxEvents : List Step → List Event
   | .fire (.ctx _) ev :: r => ev :: ctxEvents r
   | _ :: r => ctxEvents r
 
-/-- states of the specification automaton -/
+/-- the transport-level events of a run -/
+def transportView : List Step → List Event
+  | [] => []
+  | .fire .transport ev :: r => ev :: transportView r
+  | _ :: r => transportView r
+
+/-! ### the automaton -/
+
+/-- states; `u` = the user function ran, `r` = it returned normally, `f` = the call ended in a fault -/
 inductive Q where
-  | start | pre | called | ran | returned | retDoc | retStr | excObj | excDoc | excStr | done | reject
+  | start | pre | called | ran | returned | retDoc | retStr
+  | excObj (u r : Bool) | excDoc (u r : Bool) | excStr (u r : Bool)
+  | done (u r f : Bool)
+  | reject
   deriving DecidableEq, Repr
 
 def Q.step : Q → Sym → Q
   | .start, .ev .created => .pre
   | .pre, .ev .call => .called
-  | .pre, .ev .exceptionObject => .excObj          -- parsing / envelope / dispatch / validation
+  | .pre, .ev .exceptionObject => .excObj false false     -- parsing / envelope / dispatch / validation
   | .called, .user => .ran
-  | .called, .ev .exceptionObject => .excObj       -- a method_call listener raised
+  | .called, .ev .exceptionObject => .excObj false false  -- a method_call listener raised
   | .ran, .ev .returnObject => .returned
-  | .ran, .ev .exceptionObject => .excObj          -- the function raised
+  | .ran, .ev .exceptionObject => .excObj true false      -- the function raised
   | .returned, .ev .returnDocument => .retDoc
-  | .returned, .ev .exceptionObject => .excObj     -- a method_return_object listener raised / unserialisable
+  | .returned, .ev .exceptionObject => .excObj true true  -- a method_return_object listener raised / unserialisable
   | .retDoc, .ev .returnString => .retStr
-  | .retStr, .ev .closed => .done
-  | .excObj, .ev .exceptionDocument => .excDoc
-  | .excDoc, .ev .exceptionString => .excStr
-  | .excStr, .ev .closed => .done
+  | .retStr, .ev .closed => .done true true false
+  | .excObj u r, .ev .exceptionDocument => .excDoc u r
+  | .excDoc u r, .ev .exceptionString => .excStr u r
+  | .excStr u r, .ev .closed => .done u r true
   | _, _ => .reject
 
-def accepts (t : List Sym) : Bool := t.foldl Q.step .start = .done
+def Q.isDone : Q → Bool
+  | .done _ _ _ => true
+  | _ => false
 
-/-- what really happened -/
+def runFrom (q : Q) (t : List Sym) : Q := t.foldl Q.step q
+
+def final (t : List Sym) : Q := runFrom .start t
+
+def accepts (t : List Sym) : Bool := (final t).isDone
+
+/-! ### the property's sentences -/
+
+/-- `y` does not occur before the first `x` (and not at all if `x` never occurs) -/
+def onlyAfter (x y : Sym) (t : List Sym) : Bool := !(t.takeWhile (fun s => s != x)).contains y
+
+/-- the suffix of `t` starting at the first `x` -/
+def fromFirst (x : Sym) (t : List Sym) : List Sym := t.dropWhile (fun s => s != x)
+
+/-- created first, closed last, each exactly once -/
+def clCreatedClosed (t : List Sym) : Bool :=
+  (t.head? == some (.ev .created)) && (t.getLast? == some (.ev .closed))
+  && (t.count (.ev .created) == 1) && (t.count (.ev .closed) == 1)
+
+/-- the user function runs at most once, only after method_call, and (`u`) exactly when claimed -/
+def clUser (t : List Sym) (u : Bool) : Bool :=
+  decide (t.count .user ≤ 1) && onlyAfter (.ev .call) .user t && (t.contains .user == u)
+  && decide (t.count (.ev .call) ≤ 1)
+
+/-- method_return_object exactly when the function returned normally (`r`), at most once, after the function -/
+def clReturnObject (t : List Sym) (r : Bool) : Bool :=
+  (t.contains (.ev .returnObject) == r) && decide (t.count (.ev .returnObject) ≤ 1)
+  && onlyAfter .user (.ev .returnObject) t
+
+/-- method_exception_object exactly when the call ends in a fault (`f`), at most once -/
+def clExceptionObject (t : List Sym) (f : Bool) : Bool :=
+  (t.contains (.ev .exceptionObject) == f) && decide (t.count (.ev .exceptionObject) ≤ 1)
+
+/-- followed by the matching document and string events, in that order, then closed; none of the
+    other family -/
+def clFollowedBy (t : List Sym) (f : Bool) : Bool :=
+  if f then
+    fromFirst (.ev .exceptionObject) t
+        == [.ev .exceptionObject, .ev .exceptionDocument, .ev .exceptionString, .ev .closed]
+      && !t.contains (.ev .returnDocument) && !t.contains (.ev .returnString)
+  else
+    fromFirst (.ev .returnObject) t
+        == [.ev .returnObject, .ev .returnDocument, .ev .returnString, .ev .closed]
+      && !t.contains (.ev .exceptionDocument) && !t.contains (.ev .exceptionString)
+      && !t.contains (.ev .exceptionObject)
+
+def clauses (t : List Sym) (u r f : Bool) : Bool :=
+  clCreatedClosed t && clUser t u && clReturnObject t r && clExceptionObject t f && clFollowedBy t f
+
+/-! ### what really happened -/
+
 structure Truth where
   userRan : Bool
   returned : Bool
@@ -75,39 +139,7 @@ def truth (inj : Inj) (co ro : Option ExcKind) : Truth :=
   let serFail := returned && !retFail && inj.stage = .serialize
   ⟨userRan, returned, preFail || callFail || userFail || retFail || serFail, serFail⟩
 
-/-- `y` does not occur before the first `x` (and not at all if `x` never occurs) -/
-def onlyAfter (x y : Sym) (t : List Sym) : Bool := !(t.takeWhile (fun s => s != x)).contains y
-
-/-- the suffix of `t` starting at the first `x` -/
-def fromFirst (x : Sym) (t : List Sym) : List Sym := t.dropWhile (fun s => s != x)
-
-/-- the transport-level events of a run -/
-def transportView : List Step → List Event
-  | [] => []
-  | .fire .transport ev :: r => ev :: transportView r
-  | _ :: r => transportView r
-
-/-- The property, evaluated on what a first-registered application-level listener sees (`t`) given
-    what really happened (`tr`):
-    accepted by the automaton; created first, closed last, once each; the user function at most once,
-    only after method_call, and exactly when nothing failed before it; method_return_object exactly when
-    the function returned normally; method_exception_object exactly when the call ends in a fault;
-    then the matching document and string events, in that order, and none of the other family. -/
-def specOk (t : List Sym) (tr : Truth) : Bool :=
-  accepts t
-  && (t.head? == some (.ev .created)) && (t.getLast? == some (.ev .closed))
-  && (t.count (.ev .created) == 1) && (t.count (.ev .closed) == 1)
-  && (t.count .user ≤ 1) && onlyAfter (.ev .call) .user t && (t.contains .user == tr.userRan)
-  && (t.contains (.ev .returnObject) == tr.returned) && (t.count (.ev .returnObject) ≤ 1)
-  && (t.contains (.ev .exceptionObject) == tr.faulted) && (t.count (.ev .exceptionObject) ≤ 1)
-  && (if tr.faulted then
-        fromFirst (.ev .exceptionObject) t
-            == [.ev .exceptionObject, .ev .exceptionDocument, .ev .exceptionString, .ev .closed]
-          && !t.contains (.ev .returnDocument) && !t.contains (.ev .returnString)
-      else
-        fromFirst (.ev .returnObject) t
-            == [.ev .returnObject, .ev .returnDocument, .ev .returnString, .ev .closed]
-          && !t.contains (.ev .exceptionDocument) && !t.contains (.ev .exceptionString))
+/-! ### one row of the table -/
 
 /-- method_context_created / method_context_closed are never fired while a descriptor is set, so
     method- and service-level listeners never see them -/
@@ -115,35 +147,56 @@ def descScopeOk (steps : List Step) : Bool :=
   !(descEvents steps).contains .created && !(descEvents steps).contains .closed
 
 /-- transport-level events of the WSGI transport -/
-def transportOk (c : Cfg) (steps : List Step) (tr : Truth) : Bool :=
-  match c.transport with
+def transportOk (t : Transport) (steps : List Step) (faulted : Bool) : Bool :=
+  match t with
   | .serverBase => transportView steps == []
-  | .wsgi => transportView steps == [.wsgiCall, if tr.faulted then .wsgiException else .wsgiReturn, .wsgiClose]
+  | .wsgi => transportView steps == [.wsgiCall, if faulted then .wsgiException else .wsgiReturn, .wsgiClose]
 
-/-- one row of the table: everything the property says about one combination of output protocol,
-    transport, injected failure and listener outcomes -/
-def rowOk (F : Facts14) (x : Cfg × Inj × Option ExcKind × Option ExcKind) : Bool :=
-  let r := run F x.1 x.2.1 x.2.2.1 x.2.2.2
-  let tr := truth x.2.1 x.2.2.1 x.2.2.2
-  (r.escaped == (tr.serFail && x.1.transport == .serverBase))
+/-- everything the property says about one combination of (after_serialize flag of the output
+    protocol, transport, injected failure, listener outcomes): the run escapes exactly when the
+    transport has no handler for the failure; otherwise the automaton ends in the accepting state
+    that records what really happened -/
+def rowOk (F : Facts14) (x : Bool × Transport × Inj × Option ExcKind × Option ExcKind) : Bool :=
+  let r := runCore F x.1 x.2.1 x.2.2.1 x.2.2.2.1 x.2.2.2.2
+  let tr := truth x.2.2.1 x.2.2.2.1 x.2.2.2.2
+  (r.escaped == (tr.serFail && x.2.1 == .serverBase))
   && descScopeOk r.steps
-  && (r.escaped || (specOk (methodView r.steps) tr && transportOk x.1 r.steps tr))
+  && (r.escaped || (final (methodView r.steps) == .done tr.userRan tr.returned tr.faulted
+                    && transportOk x.2.1 r.steps tr.faulted))
 
-/-! ### finite enumeration of the pipeline's parameters (for whole-table proofs) -/
+/-! ### finite enumerations (for whole-table proofs) -/
 
-def allOutProto : List OutProto := [.xml, .soap11, .soap12, .json, .yaml, .msgpack, .msgpackRpc]
+def allEvent : List Event :=
+  [.created, .call, .returnObject, .exceptionObject, .returnDocument, .exceptionDocument, .returnString,
+   .exceptionString, .closed, .beforeDeserialize, .afterDeserialize, .beforeSerialize, .afterSerialize,
+   .wsgiCall, .wsgiReturn, .wsgiException, .wsgiClose, .other]
+def allSym : List Sym := .user :: allEvent.map .ev
 def allTransport : List Transport := [.serverBase, .wsgi]
 def allStage : List Stage := [.none, .createInDoc, .decompose, .genContexts, .deserialize, .user, .serialize]
 def allKind : List ExcKind := [.fault, .exc]
 def allOptKind : List (Option ExcKind) := [none, some .fault, some .exc]
-def allCfg : List Cfg := allOutProto.flatMap fun o => allTransport.map fun t => ⟨o, t⟩
 def allInj : List Inj :=
   allStage.flatMap fun s => allKind.flatMap fun k => [true, false].map fun b => ⟨s, k, b⟩
 
-abbrev Case := Cfg × Inj × Option ExcKind × Option ExcKind
+abbrev Row := Bool × Transport × Inj × Option ExcKind × Option ExcKind
 
-def allCases : List Case :=
-  allCfg.flatMap fun c => allInj.flatMap fun i => allOptKind.flatMap fun co => allOptKind.map fun ro =>
-    (c, i, co, ro)
+def allRows : List Row :=
+  [true, false].flatMap fun a => allTransport.flatMap fun t => allInj.flatMap fun i =>
+    allOptKind.flatMap fun co => allOptKind.map fun ro => (a, t, i, co, ro)
+
+/-- all traces of length ≤ `n` that lead from `q` to an accepting state, with that state -/
+def lang : Nat → Q → List (List Sym × Q)
+  | 0, q => if q.isDone then [([], q)] else []
+  | n + 1, q =>
+    (if q.isDone then [([], q)] else []) ++
+      allSym.flatMap (fun s =>
+        if q.step s = .reject then [] else (lang n (q.step s)).map (fun p => (s :: p.1, p.2)))
+
+/-- an upper bound on the number of symbols still accepted from a state -/
+def Q.rank : Q → Nat
+  | .start => 9 | .pre => 8 | .called => 7 | .ran => 6 | .returned => 5
+  | .excObj _ _ => 3 | .excDoc _ _ => 2 | .excStr _ _ => 1
+  | .retDoc => 2 | .retStr => 1
+  | .done _ _ _ => 0 | .reject => 0
 
 end SpyneModel.Events
